@@ -33,8 +33,66 @@ fn legal_string(rng: &mut Rng, s: String, legal: bool) -> String {
     }
 }
 
+/// Size caps of the XML streams.  The boundary pools of val.rs hold 70 kB blobs, 500 kB strings and sequences of 4096
+/// keypoints for the binary codec; the extracted XML model is quadratic in the length of one text node (seconds per
+/// 1000 keypoints, minutes for 4096) and recursive in the length of attribute strings, and nothing in rbx_xml depends on
+/// these sizes beyond a few base64 lines / text nodes, so the XML cases keep every value at moderate size.
+const MAX_KEYPOINTS: usize = 48;
+const MAX_BLOB: usize = 3000;
+const MAX_STRING: usize = 4000;
+
+fn cap_string(s: String) -> String {
+    if s.len() <= MAX_STRING {
+        return s;
+    }
+    let cut = (0..=MAX_STRING).rev().find(|i| s.is_char_boundary(*i)).unwrap_or(0);
+    s[..cut].to_string()
+}
+
+fn cap_value(v: Variant) -> Variant {
+    match v {
+        Variant::ColorSequence(mut s) => {
+            s.keypoints.truncate(MAX_KEYPOINTS);
+            Variant::ColorSequence(s)
+        }
+        Variant::NumberSequence(mut s) => {
+            s.keypoints.truncate(MAX_KEYPOINTS);
+            Variant::NumberSequence(s)
+        }
+        Variant::BinaryString(b) => {
+            let b: Vec<u8> = b.into();
+            Variant::BinaryString(if b.len() > MAX_BLOB { b[..MAX_BLOB].to_vec().into() } else { b.into() })
+        }
+        Variant::SharedString(b) => {
+            if b.data().len() > MAX_BLOB {
+                Variant::SharedString(SharedString::new(b.data()[..MAX_BLOB].to_vec()))
+            } else {
+                Variant::SharedString(b)
+            }
+        }
+        Variant::String(s) => Variant::String(cap_string(s)),
+        Variant::Tags(t) => {
+            let mut total = 0usize;
+            let v: Vec<String> = t.iter().map(|s| cap_string(s.to_string())).take_while(|s| { total += s.len() + 1; total <= 2 * MAX_STRING }).collect();
+            Variant::Tags(v.into())
+        }
+        Variant::Attributes(a) => {
+            let mut m = Attributes::new();
+            for (k, v) in a.into_iter().take(8) {
+                m.insert(cap_string(k), cap_value(v));
+            }
+            Variant::Attributes(m)
+        }
+        other => other,
+    }
+}
+
 /// a value of the type; with `legal` every string is made of XML 1.0 characters
 pub fn gen_value(rng: &mut Rng, ty: VariantType, nlabels: u64, legal: bool) -> Variant {
+    cap_value(gen_value_uncapped(rng, ty, nlabels, legal))
+}
+
+fn gen_value_uncapped(rng: &mut Rng, ty: VariantType, nlabels: u64, legal: bool) -> Variant {
     let v = val::gen_value(rng, ty, 2);
     match v {
         Variant::String(s) => Variant::String(legal_string(rng, s, legal)),
